@@ -118,7 +118,21 @@ func init() {
 		impl := make([]string, n)
 		human := make([]interface{}, n)
 		trees := make([][]PNode, n)
+		corpus := [][]PNode{
+			// a kept link pointing at a file the rules remove: validated before the removal, must be caught by the hash
+			{{Path: "a", Kind: "l", Data: "logs/x.log"}, {Path: "logs", Kind: "d", Perm: 0755}, {Path: "logs/x.log", Kind: "f", Perm: 0644, Data: "x"}, {Path: ".terraformignore", Kind: "f", Perm: 0644, Data: "logs/\n"}},
+			{{Path: "a-link", Kind: "l", Data: "sub/z.log"}, {Path: "sub", Kind: "d", Perm: 0755}, {Path: "sub/z.log", Kind: "f", Perm: 0644, Data: "x"}, {Path: "keep", Kind: "f", Perm: 0644, Data: "k"}, {Path: ".terraformignore", Kind: "f", Perm: 0644, Data: "*.log\n"}},
+			// an ignored file sorting before a link that leaves the package / a fifo
+			{{Path: "a.log", Kind: "f", Perm: 0644, Data: "x"}, {Path: "b", Kind: "l", Data: "../../outside.txt"}, {Path: ".terraformignore", Kind: "f", Perm: 0644, Data: "*.log\n"}},
+			{{Path: "a.log", Kind: "f", Perm: 0644, Data: "x"}, {Path: "pipe", Kind: "s"}, {Path: ".terraformignore", Kind: "f", Perm: 0644, Data: "*.log\n"}},
+			{{Path: "a", Kind: "f", Perm: 0644, Data: "x"}, {Path: "d", Kind: "l", Data: "@WORK@/a"}},
+			{{Path: "d", Kind: "d", Perm: 0755}, {Path: "d/keep", Kind: "f", Perm: 0644, Data: "k"}, {Path: "d/x", Kind: "f", Perm: 0644, Data: "x"}, {Path: ".terraformignore", Kind: "f", Perm: 0644, Data: "d/\n!d/keep\n"}},
+		}
 		for i := range trees {
+			if i < len(corpus) {
+				trees[i] = corpus[i]
+				continue
+			}
 			trees[i] = genFetched(r)
 		}
 		var wg sync.WaitGroup
